@@ -1,17 +1,23 @@
 """C04 — an active object dispatches every posted event exactly once, in queue order (DESIGN §8)."""
+import ao_corr
 import conc_corr
 
 
 def explore(run, lean):
     conc_corr.explore(run, "C04", 150 if run.tier == "quick" else 3000, escalate=bool(lean.get("broken")))
     conc_corr.explore_live(run, "C04", 30 if run.tier == "quick" else 600)
+    ao_corr.explore_timed_placement(run, "C04", 30 if run.tier == "quick" else 800)
     run.extra["rule"] = ("scenarios: 1-3 poster threads x 1-4 fifo/lifo posts (+ handler self-posts), capacities 2,3,4,500, run on the "
                          "real ActiveObject under the deterministic scheduler with PCT (depth 1-3) or uniform random choosers and a "
                          "fair round-robin suffix; the recorded schedule is replayed on the Lean transition system and compared "
                          "primitive by primitive (label, result, enabled set) and on the final state; non-trivial = >=2 posters or "
                          "handler self-posts; distinct by (scenario, chooser seed)")
     run.assumptions.append("GIL atomicity of each deque/Queue/Event primitive; preemption inside a primitive is not modelled")
+    ROUND6_RULE = '; timed fifo / lifo sources firing onto events pending in an object that is not started yet (placement oracle)'
+    run.extra["rule"] += ROUND6_RULE
 
 
 def replay(case):
+    if case.get("case", case).get("what") == "timed-placement":
+        return ao_corr.replay(case)
     return conc_corr.replay(case)
